@@ -4,7 +4,7 @@ import hashlib, io, os, shutil, signal, struct, tempfile, time, zlib
 from dulwich.errors import ChecksumMismatch
 from dulwich.object_format import SHA1
 from dulwich.object_store import DiskObjectStore, MemoryObjectStore
-from dulwich.objects import Blob, Commit, Tree
+from dulwich.objects import Blob, Commit, Tree, object_header
 from dulwich.pack import PackStreamReader, write_pack_objects
 from dulwich.repo import Repo
 
@@ -472,14 +472,35 @@ def file_sweep(req):
                 try:
                     res = []
                     if kind in ("idx", "loose"):
+                        first_exc = None
                         for oid in ids:
-                            if oid in r.object_store:
-                                o = r.object_store[oid]
+                            try:
+                                if oid in r.object_store:
+                                    o = r.object_store[oid]
+                                    raw = o.as_raw_string()
+                                    if hashlib.sha1(o.type_name + b" %d\0" % len(raw) + raw).hexdigest().encode() != oid:
+                                        res.append("object %s read back with other content" % oid[:8].decode())
+                            except Exception as e:      # noqa: BLE001  an ordinary refusal; the other read paths are still tried
+                                first_exc = first_exc or e
+                        # the other read paths hand data out under the requested name as well
+                        for oid in ids:
+                            try:
+                                tn, raw = r.object_store.get_raw(oid)
+                            except (KeyError, OSError, ValueError, zlib.error, Exception):      # noqa: BLE001  an ordinary refusal
+                                continue
+                            if hashlib.sha1(object_header(tn, len(raw)) + raw).hexdigest().encode() != oid:
+                                res.append("get_raw(%s) returns %d bytes that do not hash to that name" % (oid[:8].decode(), len(raw)))
+                        try:
+                            for o in r.object_store.iterobjects_subset(ids, allow_missing=True):
                                 raw = o.as_raw_string()
-                                if hashlib.sha1(o.type_name + b" %d\0" % len(raw) + raw).hexdigest().encode() != oid:
-                                    res.append("object %s read back with other content" % oid[:8].decode())
+                                if hashlib.sha1(o.type_name + b" %d\0" % len(raw) + raw).hexdigest().encode() != o.id:
+                                    res.append("iterobjects_subset yields %s with content that does not hash to it" % o.id[:8].decode())
+                        except Exception:      # noqa: BLE001
+                            pass
                         for oid in r.object_store:
                             pass
+                        if first_exc is not None and not res:
+                            raise first_exc
                     elif kind == "packed-refs":
                         dct = r.refs.as_dict()
                         for k, v in dct.items():
